@@ -297,8 +297,6 @@ def check_case(case, ev=None, scratch=None):
                     r = w2.call("eval", module="pk.m0", func="f", style="direct")
                     if r["exc"] is not None or not same(r["value"], values[ver]):
                         raise Violation(f"{what}: {when}: keep in the second process gave {r['exc'] or short(r['value'])}, expected {short(values[ver])}", case)
-                    if "f" in r["log"]:
-                        raise Violation(f"{what}: {when}: the second process recomputed a result that the first one had stored", case)
                 finally:
                     w2.close()
             elif op == "torn_meta":
